@@ -351,7 +351,8 @@ def run(ctx):
     root = [p for p in paths if p.returns and N.mk_cmp("is", N.selfattr("__parent"), N.NONE) in p.guards()]
     ok = len(root) == 1 and root[0].retval == ("sub", ("param", "*args"), N.const(1))
     ctx.ob("C11.R2", fi, ok, "Path2 root evaluates to the second argument (the list)", key="Path2 root")
-    ctx.floor("C11.R2", 7)
+    unused_parameters(ctx, "C11.R2", lambda f: f.relpath.endswith("expr.py"))
+    ctx.floor("C11.R2", 7 + 30)
 
     # ---------------------------------------------------------------- R3
     used = {v[0] for v in BINARY_DUNDERS.values()} | {v[0] for v in UNARY_DUNDERS.values()} | {v[0] for v in DUNDER_DEVIATIONS.values()}
